@@ -158,10 +158,18 @@ def run_fastpath(case, ctx: Ctx):
     Kref = kern.ref_kernel(r2, x1r, x2r)
     if tuple(Kref.shape) != tuple(Gm.shape):
         Kref = Kref.expand(Gm.shape)
-    # Matern-1/2 is not differentiable in x where two rows coincide (|x - x'| has a kink): those pairs get upstream
-    # weight 0 in the input-gradient comparison (both sides would only agree on a convention there).  Pairs closer than
-    # 1e-6 are treated alike: the library clamps distances at 1e-15 and nothing in binary64 resolves the kink there.
-    Gx = Gm * (~(sq < 1e-12)).expand(Gm.shape) if name == "Matern0.5" else Gm
+    # Input gradients, exclusions (pairs get upstream weight 0 in the input-gradient comparison only):
+    # * Matern-1/2 is not differentiable in x where two rows coincide (|x - x'| has a kink; both sides would only agree on
+    #   a convention there); pairs closer than 1e-6 are treated alike: the library clamps distances at 1e-15 and nothing
+    #   in binary64 resolves the kink there;
+    # * every kernel: pairs whose scaled squared distance is below 1e-10 but not 0.  The library's quadratic expansion
+    #   resolves r^2 only to eps*|x/l|^2 ~ 1e-12 and clamps negative results to 0 (gradient 0), so the contribution
+    #   K'(r) (x - x')/(l^2 r) <= 1e-5/l of such a pair is below its resolution (DESIGN 1.4, near-coincident rows).
+    sqs = kern._sqd(a1, a2, ls).expand(Gm.shape)
+    drop = (sqs > 0) & (sqs < 1e-10)
+    if name == "Matern0.5":
+        drop = drop | (sq < 1e-12).expand(Gm.shape)
+    Gx = Gm * (~drop)
     leaves = [raw, x1r] + ([] if same else [x2r])
     want = torch.autograd.grad((Kref * Gm).sum(), leaves, retain_graph=True, allow_unused=True)
     wantx = torch.autograd.grad((Kref * Gx).sum(), leaves, allow_unused=True)
@@ -572,6 +580,27 @@ def _ciq_oracle(case, kmat, extra_leaves=(), const_var=None, const_mean=None):
     return a.detach(), v.detach(), KL.detach(), grads[0], sym(grads[1]), grads[2:]
 
 
+def _cg_calibration(Sg, rhs, limit=1e-7):
+    """_NgdInterpTerms solves  S^-1 x = rhs  with the dependency's linear_cg (diagonal preconditioner).  That solver is not
+    exact on every small well-conditioned system even at tolerance 1e-12 (it treats p^T A p < 1e-10 as zero and stops
+    updating the column: observed 3e-4 on a 4x4 system with kappa = 47).  As in pbt/gpmodel.cg_calibration the *solver*
+    (code outside /repo) is run on the dense system with the arguments the library uses; cases on which it misses the dense
+    solution are outside the domain of the CG path (discarded, counted).  This calibrates the domain; it is not the oracle."""
+    from linear_operator.utils import linear_cg
+
+    prec = sym(torch.linalg.inv(Sg))
+    bs = torch.broadcast_shapes(prec.shape[:-2], rhs.shape[:-2])
+    rhs = rhs.expand(*bs, *rhs.shape[-2:])
+    diag = prec.diagonal(dim1=-1, dim2=-2).unsqueeze(-1)
+    with torch.no_grad():
+        sol = linear_cg(prec.matmul, rhs, n_tridiag=0, max_iter=500, tolerance=1e-12, max_tridiag_iter=20,
+                        preconditioner=lambda x: x / diag)
+    ref = Sg @ rhs
+    err = float((sol - ref).abs().max() / ref.abs().max().clamp_min(1.0))
+    if not err <= limit:
+        raise Discard("cg path: the dependency's linear_cg misses the dense solution of this system by > 1e-7*scale")
+
+
 def run_ciq_terms(case, ctx: Ctx):
     from gpytorch.variational.ciq_variational_strategy import _NgdInterpTerms
 
@@ -583,6 +612,8 @@ def run_ciq_terms(case, ctx: Ctx):
     kl = T(case["k"]).requires_grad_(True)
     nv = torch.linalg.solve(Sg, m.unsqueeze(-1)).squeeze(-1).requires_grad_(True)
     nm = (-0.5 * torch.linalg.inv(Sg)).requires_grad_(True)
+    bs = torch.broadcast_shapes(torch.Size(bk), torch.Size(bv))
+    _cg_calibration(Sg, torch.cat([nv.detach().expand(*bs, M).unsqueeze(-1), kl.detach().expand(*bs, M, N)], -1))
     with ctx.observing("ngd_interp_terms"):
         with S.cg_tolerance(1e-12), S.eval_cg_tolerance(1e-12), S.max_cg_iterations(500):
             im, iv, klv = _NgdInterpTerms.apply(kl, nv, nm)
@@ -658,8 +689,8 @@ def run_ciq_model(case, ctx: Ctx):
     Zr = Z.clone().requires_grad_(True)
     Kzz = kern.ref_kernel(kr, Zr, Zr) + jit * torch.eye(M)
     kappa = float(torch.linalg.cond(Kzz.detach()))
-    if not math.isfinite(kappa) or kappa > 1e6:
-        raise Discard("ill-conditioned K_ZZ (kappa > 1e6)")
+    if not math.isfinite(kappa) or kappa > 1e4:
+        raise Discard("ill-conditioned K_ZZ (kappa > 1e4)")
     ev = torch.linalg.eigvalsh(Kzz.detach())
     gap = float((ev[1:] - ev[:-1]).min() / ev[-1]) if M > 1 else 1.0
     kmat = _inv_sqrt(Kzz) @ kern.ref_kernel(kr, Zr, X)
@@ -668,6 +699,8 @@ def run_ciq_model(case, ctx: Ctx):
     a, v, KL, g1, g2, (gZ,) = _ciq_oracle(case, kmat, [Zr], const_var=const_var, const_mean=case["mean_const"])
     if bool((v < 1e-6).any()):
         raise Discard("predictive variance at the min_variance clamp")
+    nv0 = torch.linalg.solve(Sg, m.unsqueeze(-1))
+    _cg_calibration(Sg, torch.cat([nv0, kmat.detach().expand(*nv0.shape[:-2], M, N)], -1))
     # ---- library
     with ctx.observing("build"):
         mean = gpytorch.means.ConstantMean()
@@ -678,15 +711,18 @@ def run_ciq_model(case, ctx: Ctx):
         vs.variational_params_initialized.fill_(1)
         vd = vs._variational_distribution
         vd.initialize(natural_vec=torch.linalg.solve(Sg, m.unsqueeze(-1)).squeeze(-1), natural_mat=-0.5 * torch.linalg.inv(Sg))
+    # K_ZZ^{-1/2} k_ZX is computed by contour integral quadrature (dependency): a truncated quadrature whose error grows with
+    # kappa(K_ZZ) (default 15 nodes: 7e-4 at kappa = 750; 150 nodes: <= 1e-13 up to kappa = 1e4, measured) - tight settings
     with ctx.observing("ciq.forward_backward"):
-        with S.cg_tolerance(1e-12), S.eval_cg_tolerance(1e-12), S.max_cg_iterations(500):
+        with S.cg_tolerance(1e-12), S.eval_cg_tolerance(1e-12), S.max_cg_iterations(500), S.num_contour_quadrature(150), \
+                S.minres_tolerance(1e-12):
             out = model(X)
             klv = vs.kl_divergence()
             mu, var = out.mean, out.variance
             loss = (mu * T(case["g_mean"])).sum() + (var * T(case["g_var"])).sum() + (klv * T(case["g_kl"])).sum()
             dv, dm, dZ = torch.autograd.grad(loss, [vd.natural_vec, vd.natural_mat, vs.inducing_points], allow_unused=True)
-    # the natural-parameter solves go through linear_cg (DESIGN 1.4 CG row: rtol 1e-4, atol 1e-5*scale); K_ZZ^{-1/2} itself
-    # is dense here (M <= 4 < max_cholesky_size) and only amplifies rounding by kappa <= 1e6
+    # the natural-parameter solves go through linear_cg, K_ZZ^{-1/2} through CIQ + minres (DESIGN 1.4 CG row: rtol 1e-4,
+    # atol 1e-5*scale)
     t = 1e-5
     ctx.close("forward.mean", mu, a, rtol=1e-4, atol=t)
     ctx.close("forward.variance", var, v, rtol=1e-4, atol=t)
@@ -841,7 +877,10 @@ SPEC = PropertySpec(
         "log_normal_cdf: finite differences never straddle z = -1 or |z| = 0.2 and skip elements closer than 1e-7 to a branch point; "
         "|z| <= 1e6",
         "_NgdInterpTerms returns KL = 0 in the forward pass by documented design; only the KL gradient is judged",
-        "ciq.model / pred.xgrad discard K with cond > 1e6 (counted)",
+        "pred.xgrad discards cond(K + noise) > 1e6, ciq.model cond(K_ZZ) > 1e4 (counted); ciq.model runs contour integral quadrature "
+        "with 150 nodes and minres tolerance 1e-12 (the default 15 nodes are a 1e-3-level approximation at kappa ~ 1e3)",
+        "ciq.*: cases on which the dependency's linear_cg (called as the library calls it) misses the dense solution of S^-1 x = b by "
+        "more than 1e-7*max(1,|x|) are discarded and counted (the solver is linear_operator code, outside /repo)",
         "last_dim_is_batch=True (deprecated) is the one generic-path trigger not exercised",
     ],
     subchecks=SUBCHECKS,
